@@ -224,7 +224,8 @@ class C18(common.Prop):
                    "CPython executes one thread at a time (GIL) and each attribute load/store of a class attribute is atomic",
                    "CPython may switch threads between bytecodes; the replay scheduler switches only at line events - the model's "
                    "step (one access) refines both, the replayed schedules cover line granularity only",
-                   "the body decoded from (header, offset) by a BytesIOReader is outside the theorem (C03); the oracle still compares it"]
+                   "the body decoded from (header, offset) by a BytesIOReader is outside the theorem (C03); the oracle compares it "
+                   "whenever the job's solo result does not itself depend on what the memo holds (always, since the F3 repair of the reader)"]
 
     def __init__(self):
         self.info = None
@@ -363,7 +364,8 @@ class C18(common.Prop):
 
     def solo(self, case, j, memo=None):
         """the read made alone (memo as the case starts, or as given)"""
-        key = (case["files"][j["f"]], j["kind"], tuple(sorted(j["args"].items())), case["files"].get(case["memo0"]) if memo is None else memo)
+        m = case["memo0"] if memo is None else memo
+        key = (case["files"][j["f"]], j["kind"], tuple(sorted(j["args"].items())), case["files"].get(m, m))
         if key not in self.solo_cache:
             self.set_memo0(case, memo)
             rp = Replay(1, self.watch, self.hread_code)
@@ -374,7 +376,7 @@ class C18(common.Prop):
     def run_impl(self, case):
         n = len(case["jobs"])
         sched = expand(case["segs"])
-        solos = [self.solo(case, j) for j in case["jobs"]]
+        solos = [self.solo(case, j, memo="") for j in case["jobs"]]     # alone, on an empty memo
         self.set_memo0(case)
         rp = Replay(n, self.watch, self.hread_code)
         orig = getattr(self.Cache, self.lock_attr, None) if self.lock_attr else None
@@ -439,14 +441,11 @@ class C18(common.Prop):
         full-pose comparison is made only for jobs whose solo result does not depend on what the memo holds"""
         if not (j["kind"] == "stream" and j["args"]):
             return True
-        ref = self.solo(case, j)["res"]
-        for m in [""] + sorted(case["files"]):
+        ref = self.solo(case, j, memo="")["res"]
+        for m in sorted(case["files"]):
             if self.solo(case, j, memo=m)["res"] != ref:
                 return False
         return True
-
-    def solo_memo(self, case, j, memo):
-        return self.solo(case, j, memo=memo)
 
     def oracle(self, case):
         ths, solos = case.get("_threads"), case.get("_solos")
